@@ -15,7 +15,7 @@ func deadlineFor(tier string) time.Duration {
 		}
 	}
 	if tier == "thorough" {
-		return 600 * time.Second
+		return 1800 * time.Second // an internal deadline only ends the run early with exhaustive:false (exit 0); every thorough phase completes well inside it on 16 idle cores
 	}
 	return 55 * time.Second
 }
